@@ -341,6 +341,12 @@ type C20Step struct {
 	Add    []Pair      `json:"add,omitempty"`
 	DelIdx []int       `json:"del_idx,omitempty"`
 	Remote []C20Remote `json:"remote,omitempty"`
+	// replace: the Idx-th pair (k,v) is deleted and (k,v') written in the same transaction; LongOver > 0:
+	// v' is a run of 'p' that is LongOver bytes longer than the room the shadow key has for it (two such
+	// values of one key differ only beyond the part that is embedded in the shadow key); 0: v with its
+	// last byte changed
+	Idx      int `json:"idx,omitempty"`
+	LongOver int `json:"long_over,omitempty"`
 }
 
 type C20Remote struct {
@@ -499,6 +505,53 @@ func checkC20Cycle(c C20Cycle, o *vcore.Obs) error {
 				return err
 			}
 			uncaptured = true
+			continue
+		case "replace":
+			var cur [][2][]byte
+			for _, p := range mainPairs {
+				cur = append(cur, p)
+			}
+			if len(cur) == 0 {
+				continue
+			}
+			sort.Slice(cur, func(i, j int) bool { return pairKey(cur[i][0], cur[i][1]) < pairKey(cur[j][0], cur[j][1]) })
+			p := cur[stp.Idx%len(cur)]
+			k, v := p[0], p[1]
+			var nv []byte
+			if stp.LongOver > 0 && !c.DupFixed {
+				l := 511 - len(k) - 5 + stp.LongOver
+				if l > 511 {
+					l = 511
+				}
+				nv = bytes.Repeat([]byte{'p'}, l)
+			}
+			if nv == nil || bytes.Equal(nv, v) {
+				nv = append([]byte{}, v...)
+				nv[len(nv)-1] ^= 0x01
+				if len(nv) == 1 && nv[0] == 0 {
+					nv[0] = 'r'
+				}
+			}
+			if _, exists := mainPairs[pairKey(k, nv)]; exists {
+				continue
+			}
+			err := env.Update(func(txn *lmdb.Txn) error {
+				dbi, err := txn.OpenDBI("dup", lmdb.Create|flags)
+				if err != nil {
+					return err
+				}
+				if err := txn.Del(dbi, k, v); err != nil {
+					return err
+				}
+				return txn.Put(dbi, k, nv, 0)
+			})
+			if err != nil {
+				return fmt.Errorf("harness: replace: %v", err)
+			}
+			delete(mainPairs, pairKey(k, v))
+			mainPairs[pairKey(k, nv)] = [2][]byte{k, nv}
+			uncaptured = true
+			o.ClassIf(len(nv) > 511-len(k)-5, "pair-replaced-by-one-with-a-value-longer-than-the-room-in-the-key")
 			continue
 		case "send":
 			before, _ := lm.DumpEnv(env.Env)
@@ -861,8 +914,13 @@ func genC20Cycle(t *rapid.T) C20Cycle {
 	n := rapid.IntRange(1, 8).Draw(t, "nsteps")
 	for i := 0; i < n; i++ {
 		var s C20Step
-		s.Kind = rapid.SampledFrom([]string{"app", "send", "send", "remote"}).Draw(t, "kind")
+		s.Kind = rapid.SampledFrom([]string{"app", "send", "send", "remote", "replace", "replace"}).Draw(t, "kind")
 		switch s.Kind {
+		case "replace":
+			s.Idx = rapid.IntRange(0, 20).Draw(t, "ridx")
+			if rapid.Bool().Draw(t, "rlong") {
+				s.LongOver = rapid.IntRange(1, 5).Draw(t, "rover")
+			}
 		case "app":
 			s.Add = fixSize(fixEmpty(genPairs(t, bad)))
 			s.DelIdx = rapid.SliceOfN(rapid.IntRange(0, 20), 0, 3).Draw(t, "del")
@@ -879,7 +937,7 @@ func genC20Cycle(t *rapid.T) C20Cycle {
 
 func TestC20Cycle(t *testing.T) {
 	vcore.Run(t, vcore.Config{Property: "C20",
-		Rule: "rapid histories on a real MDB_DUPSORT application DBI with dupsort_hack: application pair insertions/deletions, SendOnce, LoadOnce of peer snapshots carrying the transform; application pairs equal the model after every step, uploads carry transform + dupsort flag, a native-mode receiver and a shadow receiver without the hack refuse the snapshot and stay unchanged, unmappable content is refused without changing the LMDB; non-trivial = >=1 upload with >=2 pairs sharing a key, or a refusal"},
+		Rule: "rapid histories on a real MDB_DUPSORT application DBI with dupsort_hack: application pair insertions/deletions, replacement of a pair by one with the same key whose value differs in its last byte or only beyond the part embedded in the shadow key (values longer than the room left in the key), SendOnce, LoadOnce of peer snapshots carrying the transform; application pairs equal the model after every step, uploads carry transform + dupsort flag, a native-mode receiver and a shadow receiver without the hack refuse the snapshot and stay unchanged, unmappable content is refused without changing the LMDB; non-trivial = >=1 upload with >=2 pairs sharing a key, or a refusal"},
 		genC20Cycle, checkC20Cycle)
 }
 
